@@ -1342,6 +1342,49 @@ func main() {
 				li++
 			}
 		}
+		// (j) long explicit ownership lists (the elimination compares every subject with every other one:
+		// sizes around 64 / 85 / 86 / 128 / 256 / 257 / 300 entries, i.e. below and above 256 expanded
+		// subjects), with one covering entry and entries nested below it, duplicates and a few disjoint ones
+		longList := func(n int, style int) []string {
+			l := make([]string, 0, n)
+			for i := 0; len(l) < n; i++ {
+				switch {
+				case style != 2 && i == n/2:
+					l = append(l, "l.>") // covers the nested entries before and after it
+				case style == 1 && i%7 == 3:
+					l = append(l, fmt.Sprintf("l.k.b%d", i-3)) // duplicate of an earlier entry
+				case style == 1 && i%11 == 5:
+					l = append(l, fmt.Sprintf("d%d.x", i)) // disjoint
+				case style == 1 && i%13 == 6:
+					l = append(l, "l.k.*") // nested wildcard covering part of the list
+				case style == 2 && i%2 == 1:
+					l = append(l, fmt.Sprintf("d%d.*", i)) // style 2: pairwise disjoint, a few nested below their neighbour
+				case style == 2:
+					l = append(l, fmt.Sprintf("d%d.x", i+1))
+				default:
+					l = append(l, fmt.Sprintf("l.k.b%d", i))
+				}
+			}
+			return l
+		}
+		type longCfg struct{ nres, nacc, style int }
+		longs := []longCfg{{85, 0, 1}, {86, 0, 0}, {0, 257, 1}, {64, 65, 1}}
+		if thorough {
+			longs = append(longs, longCfg{100, 0, 1}, longCfg{0, 256, 1}, longCfg{0, 257, 0}, longCfg{64, 0, 1}, longCfg{85, 1, 1}, longCfg{85, 2, 0}, longCfg{86, 0, 1}, longCfg{128, 0, 0},
+				longCfg{128, 128, 1}, longCfg{0, 300, 1}, longCfg{0, 257, 1}, longCfg{60, 77, 0}, longCfg{86, 0, 2}, longCfg{40, 137, 2},
+				longCfg{256, 0, 0}, longCfg{257, 257, 1}, longCfg{300, 0, 1}, longCfg{150, 150, 0})
+		}
+		for i, lc := range longs {
+			d := desc{Name: names[i%len(names)], Kinds: []string{"get", "access"}, HPat: "model", Queue: queues[i%len(queues)], Extra: 1,
+				ResSet: true, AccSet: true, Res: []string{}, Acc: []string{}}
+			if lc.nres > 0 {
+				d.Res = longList(lc.nres, lc.style)
+			}
+			if lc.nacc > 0 {
+				d.Acc = longList(lc.nacc, lc.style)
+			}
+			add("long-ownership-list", d)
+		}
 		// (i) construction orders: the same final mux tree (a handler two or three mounted muxes deep,
 		// optionally another handler on the outer mux or on the service) built by different sequences of
 		// NewMux / Handle / Mount / Route calls; the expectation depends on the final pattern set only
